@@ -246,6 +246,13 @@ Proof.
     destruct (Z.eqb_spec a b); [|discriminate]. subst b. cbn [app]. f_equal. apply IH, E.
 Qed.
 
+Lemma strip_len : forall p s, len (strip p s) <= len s.
+Proof.
+  intros p s. destruct (strip_cases p s) as [E|E].
+  - rewrite E. lia.
+  - rewrite E at 2. rewrite len_app. pose proof (len_nonneg p). lia.
+Qed.
+
 Lemma strip_app : forall p s, strip p (p ++ s) = s.
 Proof.
   intros p s. unfold strip. replace (strip_prefix p (p ++ s)) with (Some s); [reflexivity|].
